@@ -431,6 +431,67 @@ def coeff_sum_cases(sh):
     return out
 
 
+def array_value_cases(sh):
+    """array VALUE literals with non-constant parts: (a) quantified formulas whose bound variable occurs only inside an
+    array value (as default, as a stored value, inside a stored compound term), compared with an array symbol or
+    selected at a symbolic index; (b) equalities between array values where an assigned element becomes equal to the
+    default only after its own simplification, against a value with the same default and fewer assignments"""
+    m, u = sh.m, sh.u
+    qb, qi, xq, qv, pq = u.qvars
+    p = u.syms[BOOL][1]
+    x, y = u.syms[INT][1], u.syms[INT][2]
+    b = u.syms[BVType(2)][0]
+    AII, AVB, AVV = ArrayType(INT, INT), ArrayType(BVType(2), BOOL), ArrayType(BVType(2), BVType(2))
+    aii, avb, avv = u.syms[AII][0], u.syms[AVB][0], u.syms[AVV][0]
+    out = []
+    # (a)
+    vals_i = [m.Array(INT, qi), m.Array(INT, m.Plus(qi, m.Int(1))), m.Array(INT, m.Int(0), {m.Int(1): qi}),
+              m.Array(INT, m.Int(0), {m.Int(1): m.Times(qi, m.Int(2)), m.Int(2): m.Int(7)}),
+              m.Array(INT, x, {m.Int(3): m.Minus(qi, x)}), m.Array(INT, qi, {m.Int(0): qi})]
+    vals_v = [m.Array(BVType(2), qv), m.Array(BVType(2), m.BV(0, 2), {m.BV(1, 2): qv}),
+              m.Array(BVType(2), m.BVNot(qv), {m.BV(3, 2): m.BVAdd(qv, b)})]
+    vals_b = [m.Array(BVType(2), qb), m.Array(BVType(2), m.FALSE(), {m.BV(2, 2): qb}),
+              m.Array(BVType(2), m.Or(qb, p), {m.BV(0, 2): m.Not(qb)})]
+    bodies = []
+    for v in vals_i:
+        bodies += [(qi, m.Equals(aii, v)), (qi, m.Equals(v, aii)), (qi, m.Equals(m.Select(v, x), y)),
+                   (qi, m.LE(m.Select(v, m.Int(1)), y)), (qi, m.Equals(m.Store(aii, x, y), v))]
+    for v in vals_v:
+        bodies += [(qv, m.Equals(avv, v)), (qv, m.Equals(m.Select(v, b), m.BV(1, 2))),
+                   (qv, m.BVULT(m.Select(v, m.BV(1, 2)), b))]
+    for v in vals_b:
+        bodies += [(qb, m.Equals(avb, v)), (qb, m.Select(v, b)), (qb, m.Not(m.Select(v, m.BV(2, 2))))]
+    for (bv, body) in bodies:
+        for Q in (m.Exists, m.ForAll):
+            out.append(("rule:quant-arrayvalue", Q([bv], body)))
+            out.append(("rule:quant-arrayvalue", Q([bv, pq], m.Or(body, p))))
+        out.append(("rule:quant-arrayvalue", m.And(p, m.Exists([bv], body))))
+    # (b)
+    zero_i = [m.Minus(x, x), m.Times(y, m.Int(0)), m.Ite(p, m.Int(0), m.Int(0)), m.Plus(m.Int(0), m.Int(0)),
+              m.Minus(m.Int(3), m.Int(3)), m.Times(m.Int(0), x, y)]
+    five_i = [m.Plus(m.Int(2), m.Int(3)), m.Ite(p, m.Int(5), m.Int(5)), m.Plus(m.Minus(x, x), m.Int(5))]
+    zero_v = [m.BVSub(b, b), m.BVAnd(b, m.BV(0, 2)), m.BVXor(m.BV(1, 2), m.BV(1, 2)), m.Ite(p, m.BV(0, 2), m.BV(0, 2)),
+              m.BVMul(b, m.BV(0, 2))]
+    false_b = [m.And(p, m.Not(p)), m.And(p, m.FALSE()), m.Not(m.TRUE()), m.Ite(p, m.FALSE(), m.FALSE())]
+
+    def pairs(it, dflt, elems, k1, k2, other):
+        for e in elems:
+            l1 = m.Array(it, dflt, {k1: e})
+            r1 = m.Array(it, dflt)
+            l2 = m.Array(it, dflt, {k1: other, k2: e})
+            r2 = m.Array(it, dflt, {k1: other})
+            l3 = m.Array(it, dflt, {k1: e, k2: e})
+            for (l, r) in ((l1, r1), (l2, r2), (l3, r1), (l2, l1), (l3, r2)):
+                out.append(("rule:equals-arrayvalue", m.Equals(l, r)))
+                out.append(("rule:equals-arrayvalue", m.Equals(r, l)))
+                out.append(("rule:equals-arrayvalue", m.Not(m.Equals(l, r))))
+    pairs(INT, m.Int(0), zero_i, m.Int(1), m.Int(2), m.Int(5))
+    pairs(INT, m.Int(5), five_i, m.Int(1), m.Int(2), m.Int(0))
+    pairs(BVType(2), m.BV(0, 2), zero_v, m.BV(1, 2), m.BV(2, 2), m.BV(3, 2))
+    pairs(BVType(2), m.FALSE(), false_b, m.BV(1, 2), m.BV(2, 2), m.TRUE())
+    return out
+
+
 def rnd2(rng, pals, k):
     return [tuple(rng.randrange(len(p)) for p in pals) for _ in range(k)]
 
@@ -707,7 +768,7 @@ def generate(ctx):
     for tag, f in quant_cases(sh, rng, 400 if quick else 6000):
         cases.append((tag, env, f))
     seen = set()
-    for tag, f in nested_bool_cases(sh) + ground_arith_cases(sh) + coeff_sum_cases(sh) + ground_string_cases(sh):
+    for tag, f in nested_bool_cases(sh) + ground_arith_cases(sh) + coeff_sum_cases(sh) + ground_string_cases(sh) + array_value_cases(sh):
         if id(f) not in seen:
             seen.add(id(f))
             cases.append((tag, env, f))
